@@ -16,10 +16,10 @@ import (
 
 type VerifLW struct{ w *lineWriter }
 
-func VerifNewLW(l *label.Label, e Events) *VerifLW  { return &VerifLW{w: newLineWriter(l, e)} }
-func (v *VerifLW) Write(b []byte) (int, error)      { return v.w.Write(b) }
-func (v *VerifLW) Flush() error                     { return v.w.Flush() }
-func (v *VerifLW) Pending() string                  { return v.w.line.String() }
+func VerifNewLW(l *label.Label, e Events) *VerifLW { return &VerifLW{w: newLineWriter(l, e)} }
+func (v *VerifLW) Write(b []byte) (int, error)     { return v.w.Write(b) }
+func (v *VerifLW) Flush() error                    { return v.w.Flush() }
+func (v *VerifLW) Pending() string                 { return v.w.line.String() }
 
 // ---- the adapter behind run(callback=…): which kind string does each method report?
 
@@ -84,10 +84,10 @@ type VerifFacts struct {
 
 type verifSpy struct {
 	Target
-	proj *Project
-	m    sync.Mutex
+	proj  *Project
+	m     sync.Mutex
 	info_ targetInfo
-	f    VerifFacts
+	f     VerifFacts
 }
 
 func (s *verifSpy) info() targetInfo {
